@@ -194,12 +194,11 @@ def event_failures(n, seed, limit=3):
         two_d = i % 3 == 2
         nbins = int(rng.integers(1, 4))
         nev = int(rng.integers(0, 60))
-        dt = ['float64', 'float32', 'int64'][i % 3]
-        tvals = np.sort(rng.uniform(1000, 30000, nev))
-        if dt == 'int64':
-            tvals = tvals.astype('int64')
-        else:
-            tvals = tvals.astype(dt)
+        # event coordinates in float64 / float32 / int64 / int32, times up to 100 ms in microseconds (an int32 square does not fit
+        # beyond 46 340: the value an event gets is the FORMULA's for its coordinate, whatever the storage type)
+        dt = ['float64', 'float32', 'int64', 'int32'][i % 4]
+        tvals = np.sort(rng.uniform(1000, 30000 if i % 8 < 4 else 100000, nev))
+        tvals = tvals.astype(dt)
         events = sc.DataArray(sc.array(dims=['event'], values=rng.uniform(0.1, 3, nev), variances=rng.uniform(0.01, 1, nev), unit='counts'),
                               coords={'tof': sc.array(dims=['event'], values=tvals, unit='us'), 'pulse': sc.array(dims=['event'], values=rng.integers(0, 5, nev), unit=None)})
         # random partition of the events into npix x nbins bins (empty bins allowed)
@@ -209,7 +208,7 @@ def event_failures(n, seed, limit=3):
         b = sc.array(dims=['spectrum', 'tof'], values=begin.reshape(npix, nbins), unit=None, dtype='int64')
         e = sc.array(dims=['spectrum', 'tof'], values=end.reshape(npix, nbins), unit=None, dtype='int64')
         binned = sc.bins(begin=b, end=e, dim='event', data=events)
-        edges = sc.array(dims=['tof'], values=np.linspace(900.0, 31000.0, nbins + 1), unit='us')
+        edges = sc.array(dims=['tof'], values=np.linspace(900.0, 101000.0 if i % 8 >= 4 else 31000.0, nbins + 1), unit='us')
         pos = rng.normal(size=(npix, 3)) + np.array([0.3, 0.5, 3.0])
         da = sc.DataArray(binned, coords={'tof': edges, 'position': sc.vectors(dims=['spectrum'], values=pos, unit='m'),
                                           'source_position': sc.vector([0.0, 0.0, -12.0], unit='m'), 'sample_position': sc.vector([0.0, 0.0, 0.0], unit='m'),
@@ -227,6 +226,13 @@ def event_failures(n, seed, limit=3):
             with warnings.catch_warnings():
                 warnings.simplefilter('ignore')
                 out = conv.convert(da, origin='tof', target=target, scatter=True)
+        except sc.DTypeError as ex:
+            if dt == 'int32':
+                continue            # scipp does not support this integer arithmetic: refused, nothing converted
+            fails.append({**desc, 'problem': f'convert raised {type(ex).__name__}: {ex}'})
+            if len(fails) >= limit:
+                break
+            continue
         except Exception as ex:
             fails.append({**desc, 'problem': f'convert raised {type(ex).__name__}: {ex}'})
             if len(fails) >= limit:
@@ -257,7 +263,8 @@ def event_failures(n, seed, limit=3):
                         lo, hi = begin[p * nbins + k], end[p * nbins + k]
                         if hi <= lo:
                             continue
-                        tv = sc.array(dims=['event'], values=tvals[lo:hi], unit='us')
+                        # the formula for this event's coordinate: evaluated in double precision on the stored value
+                        tv = sc.array(dims=['event'], values=tvals[lo:hi].astype('float64'), unit='us')
                         L2 = float(np.linalg.norm(pos[p]))
                         Lt = sc.scalar(L1 + L2, unit='m')
                         b1, b2 = np.array([0, 0, 12.0]), pos[p]
